@@ -42,7 +42,7 @@ EvVerdict(cfg, o, e, k) ==
      ELSE IF \E p \in Ports(cfg, c), j \in 1..5 : new[p][j] /\ ~old[p][j] /\ ~Derivable(cfg, F, <<c, p, FlagNames[j]>>)
           THEN Fail("exchange-before-dependency", k)
      ELSE IF \E p \in Ports(cfg, c) : P(cfg, c, p).hasout /\ Targets(cfg, c, p) # {} /\
-                e.pubs[p] # (IF new[p][5] THEN InitialPubs(cfg, c) ELSE <<>>) THEN Fail("double-initial-push", k)
+                e.pubs[p] # (IF new[p][5] THEN PortPubs(cfg, c, p) ELSE <<>>) THEN Fail("double-initial-push", k)
      ELSE IF \E p \in Ports(cfg, c) : new[p][5] /\ \E x \in 1..Len(e.pvals[p]) : e.pvals[p][x] # InitTok(cfg, c, p) THEN Fail("initial-data-value", k)
      ELSE IF \E p \in Ports(cfg, c) : new[p][2] /\ ~old[p][2] /\ e.toks[p] # InitTok(cfg, P(cfg, c, p).src, P(cfg, c, p).sport)
           THEN Fail("initial-pull-value", k)
